@@ -282,6 +282,33 @@ def build():
     def fh_set(interp, recv, name, args, kwargs, node):
         raise Unsupported("fhashes." + name)
 
+    # the other entries of the in-process table, as far as this function is concerned: OTHER = another live function object cached under the
+    # SAME identifier in the SAME location (ghost OTHER_HIT: its entry is a hit); UNRELATED = a function under another identifier
+    OTHERF, UNRELATEDF = Opaque("otherfunc", None), Opaque("unrelatedfunc", None)
+
+    def fh_items(interp, recv, args, kwargs):
+        me = interp.ctx.ghost["SELF_MF"]
+        loc, fid = interp.getattr(me.fields["store_backend"], "location", None, default=None), me.fields["func_id"]
+        entries = [(UNRELATEDF, (Opaque("x", None), Opaque("y", None), Opaque("z", None), loc, Opaque("another_func_id", None)))]
+        if interp.ctx.branch(ops.truth(interp.ctx.ghost["OTHER_HIT"]), "other-function-with-this-id-in-table"):
+            entries.append((OTHERF, (Opaque("x", None), Opaque("y", None), Opaque("z", None), loc, fid)))
+        return Opaque("fhashes_items", None, entries=entries)
+
+    def fh_pop(interp, recv, args, kwargs):
+        g = interp.ctx.ghost
+        if args[0] is OTHERF:
+            g["OTHER_HIT"] = False
+        elif args[0] is UNRELATEDF:
+            g["UNRELATED_DROPPED"] = True
+        else:
+            raise Unsupported("pop of %r from the table" % (args[0],))
+        return None
+
+    p.models["fhashes.items"] = fh_items
+    p.models["fhashes.pop"] = fh_pop
+    p.models["list:fhashes_items"] = lambda interp, v: PyList(v.attrs["entries"])
+    p.spec_funcs["unrelated_dropped"] = lambda interp: bool(interp.ctx.ghost.get("UNRELATED_DROPPED"))
+
     def extract_first_line(interp, args, kwargs):
         ctx = interp.ctx
         g = ctx.ghost
@@ -321,6 +348,7 @@ def build():
     # ------------------------------------------------------------------ _write_func_code
     def wfc_setup(interp, env):
         setup(interp, env)
+        interp.ctx.ghost["SELF_MF"] = env.lookup("self")
         interp.ctx.ghost["WRITING"] = (env.lookup("func_code"), env.lookup("first_line"))
 
     def fh_setitem(pack):
@@ -342,8 +370,9 @@ def build():
         params=dict(self=mfunc(), func_code=Src, first_line=INT),
         requires=["CODESTATE >= 0 and CODESTATE <= 2", "no_entries()", "func_code is CURSRC and first_line == CURLINE",
                   ],
-        modifies=["ghost:CODESTATE", "ghost:DISKSRC", "ghost:DISKLINE", "ghost:TABLE_HIT"],
+        modifies=["ghost:CODESTATE", "ghost:DISKSRC", "ghost:DISKLINE", "ghost:TABLE_HIT", "ghost:OTHER_HIT"],
         ensures={
+            "functions_under_other_identifiers_keep_their_table_entry": "not unrelated_dropped()",
             "code_on_disk_is_current": "CODESTATE == 2 and DISKSRC is CURSRC and DISKLINE == CURLINE",
             "SI": "SI()", "TI": "TI()",
             "entries_untouched": "(HAS == old(HAS) and VAL == old(VAL))",
